@@ -15,10 +15,18 @@ def run(P, R, L):
     K.role4_counters(P, R, L)
     K.grd13_find_file_compares_internal_keys(P, R, L)
     R.clause("GRD-13", "the level>=1 file search orders by the full internal key")
+    R.clause("ROLE-5", "level file lists are built ordered by smallest key with deleted files dropped (Version::get binary-searches levels >= 1)")
+    K.role5_version_builder(P, R, L)
+    R.clause("ORD-8c", "after a reopen the sequence counter continues above every replayed entry (otherwise later overwrites sort behind older entries)")
+    K.ord8c_recovered_sequence(P, R, L)
+    R.clause("GRD-11", "a re-used WAL is appended to at the block offset the reader will assume (otherwise committed writes are unreadable after the next reopen)")
+    K.grd11_reopen_offset(P, R, L)
     R.clause("GRD-14", "a manual compaction never drops some of the overlapping level-0 inputs")
     K.grd14_manual_inputs(P, R, L)
     R.clause("ORD-3", "the flush installs the new version before the immutable memtable is dropped (a get in between must find the data in one of them)")
     K.ord3_flush(P, R, L)
+    R.clause("KEY-1", "InternalKey order: user key ascending, then sequence number descending (newest first); the sequence only breaks ties")
+    K.key1_internal_key_order(P, R, L)
     R.clause("GRD-10", "file key ranges are closed intervals: every user-key vs file-bound comparison in the crate puts the boundary key inside")
     K.grd10_closed_intervals(P, R, L)
     R.clause("GRD-3", "lookup key carries the sequence captured under the mutex")
